@@ -177,4 +177,19 @@ CLAIMED = {
                      "implementation (S->C)",
         "design_ref": "DESIGN.md section 4 (C05)",
     },
+    "C18": {
+        "text": "ComOrigin.tla computes, in exact integer/rational arithmetic, the centre of mass (row first) "
+                "of every pattern of parametrised positive-integer 4-D datasets, processes the patterns in "
+                "consecutive batches of every size and checks ScheduleIndependent / InsideDetector / "
+                "RollConserves (negative control: batch-total normalisation). The exported datasets with "
+                "their exact centres, integer-plane origins and rolled patterns are fed to the origin model "
+                "(every batch size 1..N, None, >N), the dataset model (vectorised and looped), get_com_2d "
+                "(numpy, torch), fit_origin_background / fit_origin (plane, constant) and "
+                "shift_origin_to; results are compared with the model's values.",
+        "note": "Trusted: TLC arithmetic, float32 tolerance 2e-5 px on small-integer inputs. Detector masks "
+                "are not reachable through public preprocessing and are not exercised.",
+        "technique": "TLA+ exact-arithmetic oracle with batch-schedule state machine checked by TLC; "
+                     "exported cases replayed into four implementations",
+        "design_ref": "DESIGN.md section 4 (C18)",
+    },
 }
